@@ -152,6 +152,8 @@ def spy_read(store, backend, sv, nsel, esel, dv):
     from geff._graph_libs._api_wrapper import get_backend
 
     B = get_backend(backend)
+    if not isinstance(B, type):   # get_backend returns an instance; `read` is a classmethod calling cls.construct
+        B = type(B)
     had = "construct" in B.__dict__
     orig = B.__dict__.get("construct")
     B.construct = staticmethod(lambda **kw: kw)
